@@ -527,6 +527,7 @@ Proof.
   - destruct (assoc name _); reflexivity.
   - destruct (assoc name _); [|reflexivity]. destruct (nassoc _ _); [reflexivity|].
     destruct (tokenise_patterns _ _ _ _ _); reflexivity.
+  - unfold set_date_rule. destruct (tokenise_patterns _ _ _ _ _); reflexivity.
 Qed.
 
 (* histories: the default zone after a run is the last one set successfully *)
@@ -567,6 +568,7 @@ Proof.
   - destruct (assoc name _); reflexivity.
   - destruct (assoc name _); [|reflexivity]. destruct (nassoc _ _); [reflexivity|].
     destruct (tokenise_patterns _ _ _ _ _); reflexivity.
+  - unfold set_date_rule. destruct (tokenise_patterns _ _ _ _ _); reflexivity.
 Qed.
 
 Lemma last_zone_ext cfg cfg' :
